@@ -156,15 +156,15 @@ struct SiteResult {
 }
 
 /// Read property `k` of the props built at the call site and send it down the path.
-fn finish(props: &impl Props, path: &[Step], pull: Observe, exp: Expect, orig: String) -> SiteResult {
+fn finish(props: &impl Props, key: &str, path: &[Step], pull: Observe, exp: Expect, orig: String) -> SiteResult {
     let mut enumerated = 0;
     let _ = props.for_each(|k, _| {
-        if k.get() == "k" {
+        if k.get() == key {
             enumerated += 1;
         }
         std::ops::ControlFlow::Continue(())
     });
-    let got = props.get("k");
+    let got = props.get(key);
     let present = got.is_some();
     // an absent property stays absent wherever the props go
     let mut absent_everywhere = true;
@@ -379,7 +379,7 @@ macro_rules! site {
                 let $o = &orig;
                 let props = emit::props! { $($attr)* $key: $e };
                 let pull = $pull;
-                finish(&props, path, &pull, $exp, String::new())
+                finish(&props, stringify!($key), path, &pull, $exp, String::new())
             },
         });
     };
@@ -540,7 +540,26 @@ fn check(promise: &[String], r: &SiteResult) -> Vec<(String, Value)> {
                 let d = Some(&obs.display) == r.exp.debug.as_ref() || Some(&obs.display) == r.exp.text.as_ref();
                 (r.exp.debug.is_some() && d, json!([r.exp.debug, r.exp.text]), json!(obs.display))
             }
-            "tree" => (r.exp.serde.is_some() && r.exp.sval.is_some() && obs.serde == r.exp.serde && obs.sval == r.exp.sval, json!({"serde_json": r.exp.serde, "sval_json": r.exp.sval}), json!({"serde_json": obs.serde, "sval_json": obs.sval})),
+            "tree" => {
+                let serde_ok = r.exp.serde.is_some() && obs.serde == r.exp.serde;
+                let sval_ok = r.exp.sval.is_some() && obs.sval == r.exp.sval;
+                if !(serde_ok && sval_ok) {
+                    // classify: which reader sees something else, and does the original hold a
+                    // non-empty sequence nested in another container?
+                    fn nested_seq(v: &Value, depth: usize) -> bool {
+                        match v {
+                            Value::Array(a) => (depth > 0 && !a.is_empty()) || a.iter().any(|e| nested_seq(e, depth + 1)),
+                            Value::Object(o) => o.values().any(|e| nested_seq(e, depth + 1)),
+                            _ => false,
+                        }
+                    }
+                    let nested = r.exp.serde.as_ref().and_then(|s| serde_json::from_str::<Value>(s).ok()).map(|v| nested_seq(&v, 0)).unwrap_or(false);
+                    let invalid = obs.serde.as_ref().map(|s| serde_json::from_str::<Value>(s).is_err()).unwrap_or(true);
+                    let reader = match (serde_ok, sval_ok) { (false, true) => "serde", (true, false) => "sval", _ => "both" };
+                    bad.push((format!("tree reader={reader} nested_seq={nested} invalid_json={invalid}"), json!({"component": "tree", "want": {"serde_json": r.exp.serde, "sval_json": r.exp.sval}, "got": {"serde_json": obs.serde, "sval_json": obs.sval}})));
+                }
+                continue;
+            }
             "chain" => (r.exp.chain.is_some() && obs.chain == r.exp.chain, json!(r.exp.chain), json!(obs.chain)),
             "null" => (obs.is_null, json!("the null value"), json!({"display": obs.display, "is_null": obs.is_null})),
             o => tool_error(&format!("unknown component {o}")),
@@ -620,6 +639,8 @@ fn main() {
     rep.extra.insert("executions".into(), json!(execs));
     rep.extra.insert("call_sites".into(), json!(reg.len()));
     rep.extra.insert("call_sites_used".into(), json!(used_sites.len()));
+    let unused: Vec<String> = reg.iter().filter(|s| !used_sites.contains(&(s.mode, s.class, s.ty))).map(|s| format!("{}/{}/{}", s.mode, s.class, s.ty)).collect();
+    rep.extra.insert("call_sites_unused".into(), json!(unused));
     rep.extra.insert("mismatch_categories".into(), json!(by_cat));
     rep.write(&args[2]);
 }
